@@ -864,6 +864,13 @@ func TestC15(t *testing.T) {
 				{name: "incr", steps: func(key string) []Step {
 					return []Step{{Op: "incr", Key: key, Delta: 4, At: ms(300)}, {Op: "get", Key: key, Num: true}, {Op: "get", Key: key, Num: true, At: ms(450)}}
 				}},
+				{name: "incr by zero", steps: func(key string) []Step {
+					// the "INCRBY key 0" idiom: creates a missing counter with the value 0, on every path
+					return []Step{{Op: "incr", Key: key, Delta: 0, At: ms(300)}, {Op: "get", Key: key, Num: true}, {Op: "get", Key: key, Num: true, At: ms(450)}}
+				}},
+				{name: "decr by zero", steps: func(key string) []Step {
+					return []Step{{Op: "decr", Key: key, Delta: 0, At: ms(300)}, {Op: "get", Key: key, Num: true}}
+				}},
 				{name: "decr", steps: func(key string) []Step {
 					return []Step{{Op: "decr", Key: key, Delta: 3, At: ms(300)}, {Op: "get", Key: key, Num: true}, {Op: "get", Key: key, Num: true, At: ms(450)}}
 				}},
